@@ -837,6 +837,19 @@ func c01AllOps() []int {
 	return ops
 }
 
+// c01OpsButTranslate: Translate needs nucleotide rows (it is an error on anything else, and the
+// interpreter splits on every symbolic residue it classifies): the histories with Translate
+// are in H_C01_two_steps_translate and H_C01_two_steps_then_translate.
+func c01OpsButTranslate() []int {
+	var ops []int
+	for i := 0; i < c01NbOps; i++ {
+		if i != c01OpTranslate {
+			ops = append(ops, i)
+		}
+	}
+	return ops
+}
+
 // c01AlignTwoSteps: prefix, then two operations (arguments drawn from the lean variants).
 func c01AlignTwoSteps(cfg c01Cfg, first, second []int) {
 	c01Lean = true
@@ -980,7 +993,7 @@ func H_C01_step_translate() {
 	c01AlignStep(c01Cfg{true, NUCLEOTIDS, c01Small[:2], 0, 2, 3, 6, c01GenAC}, []int{c01OpTranslate, c01OpUnalign})
 }
 
-// H_C01_two_steps: prefix, then two operations in a row out of all 22 modelled ones (rename then
+// H_C01_two_steps: prefix, then two operations in a row out of the 21 modelled ones other than Translate (rename then
 // sort, rename then concat, clear then add, filter then add, deduplicate then lookup, ...),
 // post-state check after each. A history stops after a step that the model cannot follow
 // (unspecified state after an error, duplicate names created by the caller).
@@ -988,18 +1001,18 @@ func H_C01_step_translate() {
 // outside: histories longer than 2, k>2, Translate as a successful step (needs nucleotides: H_C01_two_steps_translate)
 //verif: tier=thorough
 func H_C01_two_steps() {
-	c01AlignTwoSteps(c01Cfg{true, NUCLEOTIDS, c01Small[:2], 0, 2, 1, 2, c01GenPrintable}, c01AllOps(), c01AllOps())
+	c01AlignTwoSteps(c01Cfg{true, NUCLEOTIDS, c01Small[:2], 0, 2, 1, 2, c01GenPrintable}, c01OpsButTranslate(), c01OpsButTranslate())
 }
 
 // c01Observers: the operations that depend most on name index and cached length.
 var c01Observers = []int{c01OpAdd, c01OpConcat, c01OpSort, c01OpDedup, c01OpClone}
 
-// H_C01_two_steps_quick: quick-tier slice of H_C01_two_steps: any first operation, then one of
+// H_C01_two_steps_quick: quick-tier slice of H_C01_two_steps: any first operation but Translate, then one of
 // AddSequence, Concat, Sort, Deduplicate, Clone.
 // bounds: k<=1 prefix insertions, names {a,b}, L in 1..2, residues printable ASCII, lean argument variants
 // outside: see H_C01_two_steps
 func H_C01_two_steps_quick() {
-	c01AlignTwoSteps(c01Cfg{true, NUCLEOTIDS, c01Small[:2], 0, 1, 1, 2, c01GenPrintable}, c01AllOps(), c01Observers)
+	c01AlignTwoSteps(c01Cfg{true, NUCLEOTIDS, c01Small[:2], 0, 1, 1, 2, c01GenPrintable}, c01OpsButTranslate(), c01Observers)
 }
 
 // H_C01_rename_then: a renaming operation (Rename, RenameRegexp, AppendSeqIdentifier, CleanNames,
@@ -1042,6 +1055,26 @@ func H_C01_two_steps_translate() {
 	verifReach("second step")
 	ops := c01AllOps()
 	c01Apply(al, m, ops[nondetRange(0, len(ops)-1)], cfg.pool, c01GenPrintable)
+}
+
+// H_C01_two_steps_then_translate: nucleotide prefix, any operation but Translate, then Translate.
+// bounds: k<=2 prefix insertions, names {a,b}, L in {3,6}, residues as in H_C01_step_translate, phase -1 or 0
+// outside: see H_C01_step_translate
+//verif: tier=thorough
+func H_C01_two_steps_then_translate() {
+	c01Lean = true
+	cfg := c01Cfg{true, NUCLEOTIDS, c01Small[:2], 0, 2, 3, 3, c01GenAC}
+	if nondetRange(0, 1) == 1 {
+		cfg.lmin, cfg.lmax = 6, 6
+	}
+	sb, m := c01Prefix(cfg)
+	al := sb.(*align)
+	ops := c01OpsButTranslate()
+	if !c01Apply(al, m, ops[nondetRange(0, len(ops)-1)], cfg.pool, cfg.gen) {
+		return
+	}
+	verifReach("second step")
+	c01Apply(al, m, c01OpTranslate, cfg.pool, cfg.gen)
 }
 
 // H_C01_wronglen_rejected: a sequence whose length differs from the alignment's is rejected
